@@ -18,7 +18,7 @@ CALIB = os.path.join(core.VERIF, "calib", "C06.json")
 KINDS = {
     "vertex_perm": "exact", "triangle_rotation": "exact", "rename": "exact", "boundary_order": "exact",
     "interface_order": "exact", "format_off": "exact", "format_bnd": "exact", "api": "exact", "syntax": "exact",
-    "cond_order": "exact", "mesh_flip": "exact", "local_flips": "exact",
+    "cond_order": "exact", "mesh_flip": "exact", "local_flips": "exact", "old_ordering": "exact",
     "domain_order": "exact",
     "triangle_order": "asym", "mesh_order": "asym",
     "format_mesh32": "exact32",
@@ -57,13 +57,14 @@ def round32(m):
     return out
 
 def base_model(rng, quick):
-    # excluded on purpose: one-layer heads and heads with a non-conductive inclusion - their head matrix is singular on the
-    # pinned tree (condition number 1e16, DESIGN 4 #14 / C10), so every gain is noise; one such model is replayed below
+    # excluded on purpose: heads with a non-conductive inclusion - their head matrix is singular on the pinned tree
+    # (condition number 1e16, C10's known finding), so every gain is noise; one such model is replayed below.
+    # One-layer heads are regular since the repair of mark_current_barriers (parts of a single mesh are deflated).
     kind = rng.choice(["nested", "nested", "nested", "split", "inclusions"])
     def sig(): return rng.choice([1.0, 0.33, 0.0125, 1.79, 0.2])
     lvl = 1
     if kind == "nested":
-        n = rng.randint(2, 3); radii = [1.0]
+        n = rng.randint(1, 3); radii = [1.0]
         for _ in range(n - 1): radii.insert(0, radii[0] * rng.uniform(0.75, 0.92))
         m = models.nested(radii, [sig() for _ in range(n)], lvl)
         m["info"]["src_radius"] = radii[0]
@@ -153,21 +154,21 @@ def main(replay=None):
     calib = json.load(open(CALIB)) if os.path.exists(CALIB) else {}
     calibrate = os.environ.get("C06_CALIBRATE") == "1"
     runs = []      # dict(kind, base index, hline, model)
-    def add(cid, v, fmt, style, api, dips, sens, kind, base, cond_shuffle=False):
+    def add(cid, v, fmt, style, api, dips, sens, kind, base, cond_shuffle=False, old=False):
         d = os.path.join(ck.workdir, "c%d" % cid); shutil.rmtree(d, ignore_errors=True); os.makedirs(d)
         if api: write_api(v, d)
         else:
             g = gd.write_geom(v, d, fmt, style, rng)
             if g is None: gd.write_geom(v, d, fmt, "1.1", rng)
             gd.write_cond(v, d, rng if cond_shuffle else None)
-        hline = core.fcase("c06", [2 if api else 1, cid, len(dips), len(sens)], [x for dd in dips for x in dd] + [x for s in sens for x in s])
-        runs.append(dict(kind=kind, base=base, hline=hline, model=v, fmt=fmt, style=style, api=api, dips=dips, sens=sens, cid=cid))
+        hline = core.fcase("c06", [2 if api else 1, cid, len(dips), len(sens), 1 if old else 0], [x for dd in dips for x in dd] + [x for s in sens for x in s])
+        runs.append(dict(kind=kind, base=base, hline=hline, model=v, fmt=fmt, style=style, api=api, dips=dips, sens=sens, cid=cid, old=old))
     if replay:
         R = json.load(open(replay))
         for k, rc in enumerate(R.get("cases", [])):
             m = rc["model"]; m["meshes"] = [(n, [tuple(v) for v in vs], [tuple(t) for t in ts]) for n, vs, ts in m["meshes"]]
             m["interfaces"] = [(n, [tuple(x) for x in ms]) for n, ms in m["interfaces"]]; m["domains"] = [(n, [tuple(x) for x in bs]) for n, bs in m["domains"]]
-            add(k, m, rc["fmt"], rc["style"], rc["api"], [tuple(x) for x in rc["dips"]], [tuple(x) for x in rc["sens"]], rc["kind"], 0 if k else None)
+            add(k, m, rc["fmt"], rc["style"], rc["api"], [tuple(x) for x in rc["dips"]], [tuple(x) for x in rc["sens"]], rc["kind"], 0 if k else None, old=rc.get("old", False))
     else:
         nbase = 10 if quick else 40
         kinds = list(KINDS)
@@ -179,6 +180,10 @@ def main(replay=None):
             ks = kinds
             if calibrate: ks = kinds
             for kind in ks:
+                if kind == "old_ordering":
+                    # the other enumeration of the unknowns offered by the library (asserted for nested geometries only)
+                    if m["info"].get("kind") == "nested": add(len(runs), m, "tri", "1.1", False, dips, sens, kind, base_idx, old=True)
+                    continue
                 v, fmt, style, api = variant(m, rng, kind)
                 if kind == "format_mesh32":
                     # fair comparison: the reference is the float32-rounded model in full-precision text
@@ -202,7 +207,7 @@ def main(replay=None):
         if r["base"] is None: continue
         bz, bf = outs[r["base"]]
         base = runs[r["base"]]
-        rep = dict(kind="metamorphic", cases=[dict(model=x["model"], fmt=x["fmt"], style=x["style"], api=x["api"], dips=x["dips"], sens=x["sens"], kind=x["kind"]) for x in (base, r)],
+        rep = dict(kind="metamorphic", cases=[dict(model=x["model"], fmt=x["fmt"], style=x["style"], api=x["api"], dips=x["dips"], sens=x["sens"], kind=x["kind"], old=x.get("old", False)) for x in (base, r)],
                    replay_cmd="./check C06 --replay <this file>")
         top = base["model"]["info"].get("topology", "?")
         if zi is None or bz is None or zi[0] != 0 or bz[0] != 0:
